@@ -23,7 +23,7 @@ Definition module_init_functions : list string :=
 
 Theorem C19_no_shared_mutable_state :
   writers_allowed module_init_functions c_globals = true /\ python_global_statements = [] /\
-  python_shared_instances = [].
+  python_shared_instances = [] /\ python_shared_writes = [].
 Proof. vm_compute. repeat split; reflexivity. Qed.
 
 (* every part a Parser stores is a fresh instance (or a constant) made in its own __init__ *)
